@@ -573,6 +573,12 @@ static void DecodeGen(Word Index) {
         return;
     }
 
+    /* pArg[] has room for three operands */
+
+    if (!ChkArgCnt(1, 3)) {
+        return;
+    }
+
     for (ActArgCnt = 0; ActArgCnt <= ArgCnt; ActArgCnt++) {
         pArg[ActArgCnt] = &ArgStr[ActArgCnt];
     }
